@@ -70,7 +70,8 @@ func (i *vC09Informer) GetMetric(context.Context) *api.Metric {
 	return m
 }
 
-func vC09Measure(c vC09Case) []vC09Pub {
+// returns the publications and the instant (ns since the start) at which the observation stopped
+func vC09Measure(c vC09Case) ([]vC09Pub, int64) {
 	mon := &vC09Mon{start: time.Now(), errs: c.Errs}
 	vPeerUniverse(2)
 	cl := &Cluster{id: vPeers[0], monitor: mon, config: &Config{MonitorPingInterval: time.Duration(c.Ms) * time.Millisecond}}
@@ -88,7 +89,7 @@ func vC09Measure(c vC09Case) []vC09Pub {
 	<-done
 	mon.mu.Lock()
 	defer mon.mu.Unlock()
-	return append([]vC09Pub{}, mon.pubs...)
+	return append([]vC09Pub{}, mon.pubs...), int64(time.Since(mon.start))
 }
 
 func vC09ChainOK(p []vC09Pub) bool {
@@ -141,6 +142,8 @@ func TestVerifCadenceC09(t *testing.T) {
 		r := newVRand(seed)
 		cases = append(cases,
 			vC09Case{Kind: "ping", Ms: 200, DurMs: 1500},
+			// a publish error in the middle: the loop must go on pinging
+			vC09Case{Kind: "ping", Ms: 150, Errs: []bool{false, false, true, false, true, true, false}, DurMs: 1800},
 			vC09Case{Kind: "informer", Ms: 400, DurMs: 1500},
 			vC09Case{Kind: "informer", Ms: 400, Errs: []bool{false, true, false, false, true, false}, DurMs: 1500},
 			// an outage: many publish errors in a row (the retry delay must stay a quarter of the time left, whatever their number)
@@ -150,6 +153,9 @@ func TestVerifCadenceC09(t *testing.T) {
 			if r.chance(35) {
 				c.Kind = "ping"
 				c.Ms = r.rng(2, 4) * 100
+				for k := 0; k < 8; k++ {
+					c.Errs = append(c.Errs, r.chance(30))
+				}
 			} else {
 				run := 0 // errors still to come in the current outage
 				for k := 0; k < 14; k++ {
@@ -174,6 +180,7 @@ func TestVerifCadenceC09(t *testing.T) {
 		}
 	}
 	res := make([][]vC09Pub, len(cases))
+	tends := make([]int64, len(cases))
 	tries := make([]int, len(cases))
 	var wg sync.WaitGroup
 	for i := range cases {
@@ -182,9 +189,9 @@ func TestVerifCadenceC09(t *testing.T) {
 		go func(i int) {
 			defer wg.Done()
 			for a := 1; a <= 3; a++ {
-				res[i] = vC09Measure(cases[i])
+				res[i], tends[i] = vC09Measure(cases[i])
 				tries[i] = a
-				if vC09ChainOK(res[i]) {
+				if vC09ChainOK(res[i]) && len(res[i]) > 0 && tends[i] < res[i][len(res[i])-1].e {
 					return
 				}
 			}
@@ -201,9 +208,9 @@ func TestVerifCadenceC09(t *testing.T) {
 			}
 		}
 		ms := int64(c.Ms) * int64(time.Millisecond)
-		term := fmt.Sprintf("CPing %s [%s]", cqZ(ms), strings.Join(xs, "; "))
+		term := fmt.Sprintf("CPingE %s [%s] %s", cqZ(ms), strings.Join(xs, "; "), cqZ(tends[i]))
 		if c.Kind != "ping" {
-			term = fmt.Sprintf("CInformer %s [%s]", cqZ(ms), strings.Join(xs, "; "))
+			term = fmt.Sprintf("CInformerE %s [%s] %s", cqZ(ms), strings.Join(xs, "; "), cqZ(tends[i]))
 		}
 		out.count(fmt.Sprintf("cadence/%s/attempts-%d", c.Kind, tries[i]))
 		out.add(term, c, map[string]interface{}{"publications": len(res[i]), "measurements": tries[i]}, len(res[i]) >= 3)
